@@ -37,7 +37,10 @@ RULE = ('2-3 real threads, each with its own compiled workbook and program (iter
         'inside it at once. Oracle: per thread, the list of operation outcomes and pass counts '
         'and a digest of the cells and dependency edges of the model the thread ended up with '
         'equal those of the same program run alone on a used thread; the same holds alone on a '
-        'fresh and on a warmed-up thread. non-trivial = a run with at least one switch taken '
+        'fresh and on a warmed-up thread; and the first case of every worker process (and of '
+        'every replay) first evaluates a sheet with a broad sample of library functions on the '
+        'thread that thereby imports the function library and again on a thread that did not - '
+        'both must agree. non-trivial = a run with at least one switch taken '
         'while the pre-empted thread was inside a formula evaluation; distinct = distinct '
         'sequences of switches actually taken' % (JK, JK))
 COMPONENTS = {
@@ -446,6 +449,53 @@ def count_events(prog, tmp, suffix, grain='cell'):
 
 
 _REF_CACHE = {}
+_CANARY = {'done': False}
+CANARY_FORMULAS = (
+    '=ROUND(2.5,0)', '=ROUND(0.125,2)', '=ROUND(7.45,1)', '=ROUND(-2.5,0)', '=ROUNDUP(2.11,1)',
+    '=ROUNDDOWN(-2.19,1)', '=ROUND(25,-1)', '=MROUND(7.5,5)', '=CEILING(2.1,1)', '=FLOOR(2.9,1)',
+    '=INT(-2.5)', '=TRUNC(2.99)', '=MOD(-7,3)', '=POWER(2,0.5)', '=SQRT(2)', '=LN(10)',
+    '=LOG(100,10)', '=EXP(1)', '=PI()', '=1/3', '=0.1+0.2', '=2^0.5', '=10%', '=1E+22+1',
+    '=DATE(2020,2,29)', '=YEAR(44000)', '=MONTH(44000)', '=DAY(44000)', '=WEEKDAY(44000)',
+    '=EDATE(44000,1)', '=EOMONTH(44000,1)', '=DATEVALUE("2021-03-04")', '=TIMEVALUE("12:30")',
+    '=YEARFRAC(43831,44196)', '=UPPER("stra\u00dfe")', '=LOWER("\u00c9T\u00c9")', '=LEN("\u00e9\u4e2d")',
+    '=LEFT("abcdef",2)', '=MID("abcdef",2,3)', '=FIND("c","abc")', '=SUBSTITUTE("aaa","a","b",2)',
+    '=CONCATENATE("a",1,TRUE)', '=VALUE("1.5")', '=TEXT(0.125,"0.00")', '=TEXT(2.5,"0")',
+    '=TRIM("  a  b ")', '=REPT("ab",2)', '=1&""', '=1.5&""', '=TRUE&""', '="a"<"B"', '="10"<"9"',
+    '=SUM(A1:A4)', '=AVERAGE(A1:A4)', '=MAX(A1:A4)', '=MIN(A1:A4)', '=COUNT(A1:A4)',
+    '=SUMIF(A1:A4,">1")', '=COUNTIF(A1:A4,"<>2")', '=SUMPRODUCT(A1:A4,A1:A4)', '=VLOOKUP(2,A1:B4,2)',
+    '=MATCH(2.5,A1:A4)', '=INDEX(A1:B4,2,2)', '=IFERROR(1/0,7)', '=AND(TRUE,1)', '=OR(FALSE,0)',
+    '=NPV(0.1,A1:A4)', '=STDEV(A1:A4)', '=VAR(A1:A4)', '=MEDIAN(A1:A4)', '=LARGE(A1:A4,2)',
+    '=ABS(-2.5)', '=SIGN(-2)', '=FACT(5)', '=ATAN2(1,1)', '=HEX2DEC("FF")', '=DEC2BIN(5)',
+)
+
+
+def library_canary():
+    """The first evaluation in a process imports pycel's function library on the thread that
+    happens to do it.  Whatever that import sets up per thread (decimal context, locale, ...)
+    is missing on every other thread: a sheet that calls a broad sample of library functions
+    gives the same on the thread that imported and on a thread that did not."""
+    spec = {'sheets': ['K'], 'active': 'K', 'data_sheet': None, 'names': {}, 'pinned': [],
+            'iter': None,
+            'cells': [{'a': f'K!A{i + 1}', 'v': v} for i, v in enumerate((1, 2.5, 2, 4.125))] +
+                     [{'a': f'K!B{i + 1}', 'v': v} for i, v in enumerate((10, 20, 30, 40))] +
+                     [{'a': f'K!D{i + 1}', 'f': f} for i, f in enumerate(CANARY_FORMULAS)]}
+    targets = [f'K!D{i + 1}' for i in range(len(CANARY_FORMULAS))]
+
+    def run():
+        from pycel import ExcelCompiler
+        model = ExcelCompiler(excel=wbgen.to_workbook(spec))
+        out = []
+        for a in targets:
+            res = outcome_of(lambda: model.evaluate(a))
+            res.pop('msg', None)
+            out.append(res)
+        return out
+    first = on_fresh_thread(run, name='canary-importing-thread')
+    second = on_fresh_thread(run, name='canary-other-thread')
+    for i, (x, y) in enumerate(zip(first, second)):
+        if x != y:
+            return CANARY_FORMULAS[i], x, y
+    return None
 
 
 def run_case(case):
@@ -465,6 +515,14 @@ def run_case(case):
 
     names = [p['name'] for p in programs]
     plugin.reset()
+    if not _CANARY['done']:
+        # first case of this process: nothing has evaluated a formula yet
+        _CANARY['done'] = True
+        diff = library_canary()
+        count('library-canary-runs')
+        if diff:
+            violate('fresh-thread-differs', 'canary', [diff[1]], [diff[2]], kind='library-canary',
+                    build=diff[0])
     grain = schedule.get('grain', 'cell')
     key = hashlib.sha256(json.dumps([programs, grain], sort_keys=True, default=str).encode()
                          ).hexdigest()
